@@ -124,11 +124,11 @@ def gen_recipes(rng, n):
                 via = 'direct'
             out.append({'kind': 'search', 'f': f, 'w': w, 's': s, 'via': via})
         elif r < 0.8:
-            pool = ['abc', '', 'x y', 7, -3, 2.5, 2.0, 0.1, True, False, {'E': 1}, 10 ** 20, 'Q']
+            pool = ['abc', '', 'x y', 7, -3, 0, 0, 10, 2.5, 2.0, 0.1, True, False, {'E': 1}, 10 ** 20, 'Q']
             jp = [p if isinstance(p, dict) else C.jenc(p) for p in pool]
             out.append({'kind': 'amp', 'l': rng.choice(jp), 'r': rng.choice(jp)})
         elif r < 0.88:
-            pool = ['abc', 'x', 7, -3, 2.5, 4.0, True, {'E': 1}, dt.datetime(2020, 1, 2)]
+            pool = ['abc', 'x', 7, -3, 0, 0, 10, '', 2.5, 4.0, True, {'E': 1}, dt.datetime(2020, 1, 2)]
             out.append({'kind': 'concat', 'vals': [p if isinstance(p, dict) else C.jenc(p) for p in [rng.choice(pool) for _ in range(rng.randint(1, 4))]]})
         else:
             t = rng.choice(['12', ' 12 ', '-7', '+3', '3.5', '3,5', '0.1', '1e3', 'abc', '', '12%', '1 234,5', '007', '.5', '5.', '1_0', 'nan', '12abc', ' -2.25 ', '1e-2'])
